@@ -363,8 +363,9 @@ class ThreadingApplication(Application):
             answer = self.generate_answer(
                 message,
                 result_code=constants.E_RESULT_CODE_DIAMETER_UNABLE_TO_COMPLY)
-        if answer is not None:
-            self._resp_msg_queue.put(answer)
+        # always hand the result over, also when there is nothing to send:
+        # the response consumer is what gives the thread slot back
+        self._resp_msg_queue.put(answer)
 
     def handle_request(self, message: Message) -> Message | None:
         """Called by diameter node every time a request message is received.
